@@ -44,14 +44,14 @@ def hex16 (n : Nat) : String :=
   String.ofList ((List.range 16).reverse.map fun i => hexDigit ((n / 16^i) % 16))
 
 /-- Read frame after frame from one stream with one reader (each successful read consumes exactly its frame). -/
-def readAll (reader : Bytes → WOut Bytes) (bs : Bytes) : String :=
+def readAll (reader : Bytes → WOut Bytes) (bs : Bytes) (eof : String := "Io") : String :=
   let rec go (fuel : Nat) (s : Bytes) (acc : List String) : List String × String :=
     match fuel with
     | 0 => (acc.reverse, "runaway")
     | fuel + 1 =>
       match reader s with
       | .ok f => go fuel (s.drop f.length) (s!"{f.length}:{hex16 (fnv64 f)}" :: acc)
-      | .err e => (acc.reverse, showErr e)
+      | .err e => (acc.reverse, if e = .io then eof else showErr e)
       | .panic => (acc.reverse, "PANIC")
       | .abort => (acc.reverse, "ABORT")
   let (frames, e) := go 10001 bs []
@@ -126,8 +126,20 @@ def step (st : St) (ws : List String) : St × String :=
       else if kind = "1" then some (readMessageInto hf Gen.readIntoSumForm Gen.readIntoAlloc st.mode)
       else if kind = "3" then some (readMessageInto hf Gen.asyncReadIntoSumForm Gen.asyncReadIntoAlloc st.mode)
       else none
-    match reader, streams.mapM bytesOfHex with
-    | some rd, some ss => (st, idx ++ " " ++ " | ".intercalate (ss.map (readAll rd)))
+    -- a stream token `p<k>:<hex>`: the stream itself panics when byte k is asked for, i.e. the reader sees the first k
+    -- bytes and then, instead of an end of file, an unwind (the harness catches it and goes on with the same buffer)
+    let parse1 (tok : String) : Option (Option Nat × Bytes) :=
+      if tok.startsWith "p" then
+        match (tok.drop 1).toString.splitOn ":" with
+        | [k, h] => (bytesOfHex h).map fun b => (some (natOf k), b)
+        | _ => none
+      else (bytesOfHex tok).map fun b => (none, b)
+    match reader, streams.mapM parse1 with
+    | some rd, some ss =>
+      (st, idx ++ " " ++ " | ".intercalate (ss.map fun (pk, b) =>
+        match pk with
+        | some k => readAll rd (b.take k) "panicked"
+        | none => readAll rd b))
     | _, _ => (st, idx ++ " bad-op")
   | "net" :: idx :: _ep :: _h :: _pre =>
     -- hostile bytes against a real endpoint: the model's prediction is C02's totality — the endpoint survives
